@@ -85,7 +85,7 @@ func genDecide(r *rand.Rand) DecideCase {
 	used := map[string]bool{}
 	var operands []uint64
 	for g := 0; g < ng; g++ {
-		grp := vd.Group{Action: []uint32{actErrno, actErrno, actAllow, actKillP, actLog}[r.Intn(5)]}
+		grp := vd.Group{Action: []uint32{actErrno, actErrno, actAllow, actKillP, actLog, actErrno | 2, actErrno | 13, actErrno | 38, actErrno | 4094}[r.Intn(9)]}
 		cnt := 1 + r.Intn(3)
 		for k := 0; k < cnt; k++ {
 			n := probes[r.Intn(len(probes))]
